@@ -262,6 +262,11 @@ type vC09World struct {
 	labelOf map[int]int
 	callOf  map[int]*vMcuCall
 	msgId   atomic.Int64
+	// zz_verif_c09_exits_test.go: in-memory backend / websocket servers, the far ends of the
+	// connections (nil = session without connection), number of virtual sessions added
+	net      *vC09Net
+	peers    []*vC09Peer
+	nvirtual int
 }
 
 func vC09Config() *goconf.ConfigFile {
@@ -276,6 +281,29 @@ func vC09Config() *goconf.ConfigFile {
 }
 
 func vC09NewWorld(t *testing.T, nsess int) *vC09World {
+	types := make([]string, nsess)
+	for i := range types {
+		types[i] = "c"
+	}
+	return vC09NewWorldTypes(t, types)
+}
+
+// vC09WorldTypes parses a `world` line; nil if it is not one.
+func vC09WorldTypes(line string) []string {
+	f := strings.Fields(line)
+	if len(f) != 1+vC09Sessions || f[0] != "world" {
+		return nil
+	}
+	for _, t := range f[1:] {
+		if len(t) != 1 || !strings.Contains("cdifCDIF", t) {
+			return nil
+		}
+	}
+	return f[1:]
+}
+
+func vC09NewWorldTypes(t *testing.T, types []string) *vC09World {
+	nsess := len(types)
 	events, err := NewAsyncEvents(NatsLoopbackUrl)
 	if err != nil {
 		t.Fatal(err)
@@ -296,6 +324,8 @@ func vC09NewWorld(t *testing.T, nsess int) *vC09World {
 	if w.backend == nil {
 		t.Fatal("verif: backend not configured")
 	}
+	w.startNet()
+	w.peers = make([]*vC09Peer, nsess)
 	for i := 0; i < nsess; i++ {
 		data := hub.newSessionIdData(w.backend)
 		priv, err := hub.cookie.EncodePrivate(data)
@@ -308,6 +338,19 @@ func vC09NewWorld(t *testing.T, nsess int) *vC09World {
 		}
 		hello := &HelloClientMessage{Version: HelloVersionV1, Auth: &HelloClientMessageAuth{Type: HelloClientTypeClient, Url: vC09BackendUrl, parsedUrl: u}}
 		auth := &BackendClientAuthResponse{Version: BackendVersion, UserId: "user" + strconv.Itoa(i)}
+		switch strings.ToLower(types[i]) {
+		case "d":
+			hello.Auth.Type = HelloClientTypeFederation
+		case "i", "f":
+			// Hub.processHelloInternal
+			hello.Auth.Type = HelloClientTypeInternal
+			hello.Auth.internalParams.Backend = vC09BackendUrl
+			hello.Auth.internalParams.parsedBackend = u
+			auth = &BackendClientAuthResponse{}
+			if strings.ToLower(types[i]) == "f" {
+				hello.Features = []string{ClientFeatureInternalInCall}
+			}
+		}
 		s, err := NewClientSession(hub, priv, pub, data, w.backend, hello, auth)
 		if err != nil {
 			t.Fatal(err)
@@ -322,7 +365,11 @@ func vC09NewWorld(t *testing.T, nsess int) *vC09World {
 		hub.setDecodedSessionId(pub, publicSessionName, data)
 		w.sessions = append(w.sessions, s)
 		w.byPublic[pub] = i
+		if types[i] == strings.ToUpper(types[i]) {
+			w.connect(i)
+		}
 	}
+	synctest.Wait()
 	return w
 }
 
@@ -343,6 +390,7 @@ func (w *vC09World) shutdown() {
 		s.Close()
 	}
 	synctest.Wait()
+	w.stopNet()
 	w.hub.Stop()
 	w.hub.rpcClients.Close()
 	w.hub.backend.Close()
@@ -385,6 +433,10 @@ func (w *vC09World) drainErrors(i int) []string {
 	s.hasPendingChat = false
 	s.hasPendingParticipantsUpdate = false
 	s.mu.Unlock()
+	if p := w.peers[i]; p != nil {
+		// what was written to the connection while the session had one
+		msgs = append(p.take(), msgs...)
+	}
 	var codes []string
 	for _, m := range msgs {
 		if m.Type == "error" && m.Error != nil {
@@ -608,7 +660,8 @@ func (w *vC09World) exec(line string) string {
 			return "bad-op"
 		}
 		roomId := "room" + f[2]
-		msg := &ClientMessage{Id: "j", Type: "room", Room: &RoomClientMessage{RoomId: roomId}}
+		// every session has a room session id of its own (`kick` refers to it)
+		msg := &ClientMessage{Id: "j", Type: "room", Room: &RoomClientMessage{RoomId: roomId, SessionId: "rs" + f[1]}}
 		resp := &BackendClientResponse{Type: "room", Room: &BackendClientRoomResponse{Version: BackendVersion, RoomId: roomId}}
 		w.hub.processJoinRoom(w.sessions[i], msg, resp)
 		synctest.Wait()
@@ -798,6 +851,9 @@ func (w *vC09World) exec(line string) string {
 			return "bad-op"
 		}
 		return w.stress(seed, g, n)
+	}
+	if out, ok := w.execExit(f); ok {
+		return out
 	}
 	return "bad-op"
 }
@@ -1047,9 +1103,22 @@ func vC09Exec(t *testing.T, c *vCase) {
 		return
 	}
 	synctest.Test(t, func(t *testing.T) {
-		w := vC09NewWorld(t, vC09Sessions)
+		var types []string
+		if len(c.Ops) > 0 {
+			types = vC09WorldTypes(c.Ops[0])
+		}
+		var w *vC09World
+		if types != nil {
+			w = vC09NewWorldTypes(t, types)
+		} else {
+			w = vC09NewWorld(t, vC09Sessions)
+		}
 		defer w.shutdown()
-		for _, line := range c.Ops {
+		for i, line := range c.Ops {
+			if i == 0 && types != nil {
+				c.Impl = append(c.Impl, w.worldLine())
+				continue
+			}
 			c.Impl = append(c.Impl, w.exec(line))
 		}
 	})
@@ -1134,6 +1203,16 @@ func vC09Random(rr *vRand, maxOps int) []string {
 	label := 0
 	var maybePending []int
 	closed := map[int]bool{}
+	exits := false
+	if rr.chance(1, 2) {
+		// client types / connections of the three sessions, and the ops of zz_verif_c09_exits_test.go
+		exits = true
+		line := "world"
+		for i := 0; i < vC09Sessions; i++ {
+			line += " " + rr.pick(vC09TypeMix)
+		}
+		ops = append(ops, line)
+	}
 	if rr.chance(3, 4) {
 		ops = append(ops, vC09Setup...)
 		if rr.chance(1, 2) {
@@ -1168,6 +1247,31 @@ func vC09Random(rr *vRand, maxOps int) []string {
 		}
 	}
 	for len(ops) < nops {
+		if exits && rr.chance(1, 5) {
+			switch k := rr.intn(20); {
+			case k < 4:
+				ops = append(ops, fmt.Sprintf("incallall %d %d", 1+rr.intn(2), rr.intn(2)))
+			case k < 8:
+				ops = append(ops, fmt.Sprintf("intincall %d %d", sess(), rr.intn(8)))
+			case k < 10:
+				ops = append(ops, fmt.Sprintf("delroom %d", 1+rr.intn(2)))
+			case k < 12:
+				ops = append(ops, fmt.Sprintf("disinvite %d %d", sess(), 1+rr.intn(2)))
+			case k < 14:
+				ops = append(ops, fmt.Sprintf("kick %d", sess()))
+			case k < 15:
+				ops = append(ops, fmt.Sprintf("asyncbye %d", sess()))
+			case k < 16:
+				ops = append(ops, fmt.Sprintf("bye %d", sess()))
+			case k < 18:
+				ops = append(ops, fmt.Sprintf("drop %d", sess()))
+			case k < 19:
+				ops = append(ops, "expire")
+			default:
+				ops = append(ops, fmt.Sprintf("virtual %d %d", sess(), 1+rr.intn(2)))
+			}
+			continue
+		}
 		switch k := rr.intn(100); {
 		case k < 10:
 			ops = append(ops, fmt.Sprintf("join %d %d", sess(), 1+rr.intn(2)))
@@ -1232,7 +1336,11 @@ func vC09Random(rr *vRand, maxOps int) []string {
 
 // Lines that are not well-formed ops (both sides must answer `bad-op`) and
 // answers for labels that are not pending (`bad`).
+var vC09TypeMix = []string{"c", "c", "c", "c", "C", "C", "C", "d", "D", "i", "I", "f", "f", "F", "F"}
+
 var vC09Malformed = []string{
+	"world c c", "world c c x", "world c c c", "incallall x 0", "intincall 0 -1", "intincall 7 1", "delroom", "disinvite 0",
+	"kick 9", "bye", "drop x", "expire 1", "virtual 0",
 	"offer 1 7 video av", "offer x 0 video av", "request 1 0 9 video", "end 99 ok", "end 1 maybe", "close 5",
 	"join 0", "perms 0", "incall 3 1", "frobnicate 1 2", "leave", "end 1 ok", "sendoffer 1 0 3 video",
 }
@@ -1249,6 +1357,11 @@ func vC09Gen(e *vEnv, r *vRand) []vCase {
 	}
 	// revocation of everything with both publishers stored (C08's finding seen from C09)
 	add([]string{"join 0 1", "offer 1 0 video av", "offer 2 0 screen av", "end 1 ok", "end 2 ok", "perms 0 -", "state"}, "witness")
+
+	// every way out of the call / the room / life, for every client type, with an object stored or in creation
+	for _, ops := range vC09ExitCases(vC09Types) {
+		add(ops, "exit")
+	}
 
 	// schedules: all orders of up to 4 concurrent threads
 	var scheds [][]string
@@ -1296,9 +1409,6 @@ func vC09Gen(e *vEnv, r *vRand) []vCase {
 		}
 	}
 
-	// the assumption about the real Janus client, once per stream type
-	add([]string{"janus video", "janus screen", "janustimeout video", "janustimeout screen"}, "janus")
-
 	// PRNG histories
 	n := e.scale(250, 15000)
 	maxOps := e.scale(30, 60)
@@ -1317,6 +1427,10 @@ func vC09Gen(e *vEnv, r *vRand) []vCase {
 			add(ops, "random")
 		}
 	}
+
+	// the assumption about the real Janus client, once per stream type (last: the Janus client's keepalive
+	// timer runs on the real clock until the test ends, and the test gateway does not answer keepalives)
+	add([]string{"janus video", "janus screen", "janustimeout video", "janustimeout screen"}, "janus")
 	return cases
 }
 
